@@ -31,14 +31,15 @@ type segment struct {
 
 // End is one end of a simulated connection.
 type End struct {
-	n      *Net
-	Name   string // unique, e.g. "d3:p" (proxy side of dialed conn 3)
-	ID     int
-	peer   *End
-	local  Addr
-	remote Addr
-	SUT    bool // owned by the code under test
-	Owned  bool // handed to the code under test (dialed by it, or returned by its Accept)
+	lingerZero bool // SetLinger(0): Close resets instead of finishing
+	n          *Net
+	Name       string // unique, e.g. "d3:p" (proxy side of dialed conn 3)
+	ID         int
+	peer       *End
+	local      Addr
+	remote     Addr
+	SUT        bool // owned by the code under test
+	Owned      bool // handed to the code under test (dialed by it, or returned by its Accept)
 
 	rbuf    []byte
 	reof    bool  // FIN received (after rbuf)
@@ -626,6 +627,12 @@ func (e *End) closeLocked() {
 	e.ClosedAt = time.Now()
 	e.wakeR()
 	e.wakeW()
+	if e.lingerZero && e.rerr == nil && !e.peer.closed {
+		// SO_LINGER with a zero timeout: close sends RST at once, what was written and not yet delivered is discarded
+		e.n.count("rst-on-linger-zero")
+		e.resetPeerLocked()
+		return
+	}
 	if len(e.rbuf) > 0 && e.rerr == nil && !e.peer.closed {
 		// close with unread data: the kernel sends RST, the peer loses what is in flight to it
 		e.n.count("rst-on-close-unread")
@@ -679,6 +686,20 @@ func (e *End) Close() error {
 	}
 	return nil
 }
+
+// Socket options a *net.TCPConn offers (see simhook.TCPConn).  Only a zero linger time changes what the peers can
+// observe; the others are accepted and ignored.
+func (e *End) SetLinger(sec int) error {
+	e.n.mu.Lock()
+	e.lingerZero = sec == 0
+	e.n.mu.Unlock()
+	return nil
+}
+func (e *End) SetNoDelay(bool) error                  { return nil }
+func (e *End) SetKeepAlive(bool) error                { return nil }
+func (e *End) SetKeepAlivePeriod(time.Duration) error { return nil }
+func (e *End) SetReadBuffer(int) error                { return nil }
+func (e *End) SetWriteBuffer(int) error               { return nil }
 
 func (e *End) CloseWrite() error {
 	simhook.Yield("net.CloseWrite")
